@@ -644,8 +644,8 @@ pub fn build(quick: bool) -> Check {
             label: "lock-step",
             lens: super::soak::lens(quick),
             mixes: super::soak::MIXES.to_vec(),
-            opts: vec![("lock-step client", RunOpts { lockstep: true, ..RunOpts::default() }), ("lock-step client, reads of at most 3 bytes, writes of at most 7", RunOpts { lockstep: true, uniform_read: 3, write_cap: 7, ..RunOpts::default() }), ("lock-step client, every 97th command split behind its header, resultsets of varying shape", RunOpts { lockstep: true, cut_every: 97, rich: true, ..RunOpts::default() })],
-            big: vec![(70_001, super::soak::Mix::Even, 0), (66_000, super::soak::Mix::Silent, 1), (70_001, super::soak::Mix::Text, 2), (70_001, super::soak::Mix::Even, 2)],
+            opts: vec![("lock-step client", RunOpts { lockstep: true, ..RunOpts::default() }), ("lock-step client, reads of at most 3 bytes, writes of at most 7", RunOpts { lockstep: true, uniform_read: 3, write_cap: 7, ..RunOpts::default() }), ("lock-step client, every 97th command split behind its header, resultsets of varying shape", RunOpts { lockstep: true, cut_every: 97, rich: true, ..RunOpts::default() }), ("lock-step client, one early long command split behind its header, everything else whole", RunOpts { lockstep: true, cut_once: true, ..RunOpts::default() })],
+            big: vec![(70_001, super::soak::Mix::Even, 0), (66_000, super::soak::Mix::Silent, 1), (70_001, super::soak::Mix::Text, 2), (70_001, super::soak::Mix::Even, 2), (70_001, super::soak::Mix::Text, 3), (66_100, super::soak::Mix::Text, 3)],
         }));
     }
     Check {
